@@ -121,6 +121,11 @@ struct World {
   std::vector<LHandle> handles;  // parallel to Model::handles
   lib::Arena arena;              // linked strings live here, beyond every document
   int policy = -1;               // -1: string kinds as generated; >= 0: forced kind (C14 lockstep)
+  // C06: the document whose pool requests are watched during the current operation
+  JsonDocument* watch = nullptr;
+  size_t watch_pools = 0;
+  std::string watch_error;
+  unsigned pool_requests = 0;
 
   ~World() {
     handles.clear();
